@@ -17,8 +17,11 @@ type SyncResult struct {
 	SendErr, RecvErr error
 	Pair             *Pair
 	Stuck            string // non-empty: goroutine dump of a quiescent, unfinished transfer
-	Leaked           string // non-empty: fsutil goroutines that survived both returns
-	Progress         []ProgressCall
+	// StuckAfterTeardown: after Stuck was detected the harness broke both endpoints
+	// and cancelled every context; non-empty if the calls still did not return.
+	StuckAfterTeardown string
+	Leaked             string // non-empty: fsutil goroutines that survived both returns
+	Progress           []ProgressCall
 }
 
 type ProgressCall struct {
@@ -27,10 +30,14 @@ type ProgressCall struct {
 }
 
 type SyncOpt struct {
-	Capacity   int
-	Recv       fsutil.ReceiveOpt
-	SendProg   bool
-	Setup      func(p *Pair)                         // install hooks before start
+	Capacity int
+	Recv     fsutil.ReceiveOpt
+	SendProg bool
+	Setup    func(p *Pair) // install hooks before start
+	// SetupCalls receives functions that cancel the context handed to Send /
+	// Receive (not the stream\'s own context: cancelling a call must not by itself
+	// tear the stream down).
+	SetupCalls func(cancelSend, cancelRecv func())
 	Ctx        context.Context                       // parent context (default Background)
 	SendCtx    func(context.Context) context.Context // derive Send's ctx
 	CheckLeaks bool
@@ -51,6 +58,15 @@ func RunSync(src fsutil.FS, dest string, o SyncOpt) *SyncResult {
 		o.Setup(pair)
 	}
 	res := &SyncResult{Pair: pair}
+	var baseline map[string]bool
+	if o.CheckLeaks {
+		baseline = map[string]bool{}
+		for _, g := range dumpGoroutines() {
+			if isLibrary(g) {
+				baseline[g.id] = true
+			}
+		}
+	}
 	var pmu sync.Mutex
 	var prog func(int, bool)
 	if o.SendProg {
@@ -60,16 +76,23 @@ func RunSync(src fsutil.FS, dest string, o SyncOpt) *SyncResult {
 			pmu.Unlock()
 		}
 	}
+	sendCtx, cancelSend := context.WithCancel(parent)
+	recvCtx, cancelRecv := context.WithCancel(parent)
+	defer cancelSend()
+	defer cancelRecv()
+	if o.SetupCalls != nil {
+		o.SetupCalls(cancelSend, cancelRecv)
+	}
 	var wg sync.WaitGroup
 	wg.Add(2)
 	go func() {
 		defer wg.Done()
-		res.SendErr = fsutil.Send(pair.S.Context(), pair.S, src, prog)
+		res.SendErr = fsutil.Send(sendCtx, pair.S, src, prog)
 		pair.S.Returned(res.SendErr)
 	}()
 	go func() {
 		defer wg.Done()
-		res.RecvErr = fsutil.Receive(pair.R.Context(), pair.R, dest, o.Recv)
+		res.RecvErr = fsutil.Receive(recvCtx, pair.R, dest, o.Recv)
 		pair.R.Returned(res.RecvErr)
 	}()
 	done := make(chan struct{})
@@ -81,16 +104,21 @@ func RunSync(src fsutil.FS, dest string, o SyncOpt) *SyncResult {
 		pair.R.Break(ErrBroken)
 		pair.S.Cancel()
 		pair.R.Cancel()
-		select {
-		case <-done:
-		case <-time.After(20 * time.Second):
+		cancelSend()
+		cancelRecv()
+		if dump2 := WaitOrStuck(done, pair); dump2 != "" {
+			res.StuckAfterTeardown = dump2
+			select {
+			case <-done:
+			case <-time.After(5 * time.Second):
+			}
 		}
 		return res
 	}
 	pair.S.Cancel()
 	pair.R.Cancel()
 	if o.CheckLeaks {
-		res.Leaked = LeakedGoroutines()
+		res.Leaked = LeakedGoroutines(baseline)
 	}
 	return res
 }
@@ -244,7 +272,11 @@ func (p *Pair) deliverable() bool {
 
 // LeakedGoroutines polls until no goroutine with an fsutil frame remains, or
 // the survivors are quiescent (then returns their dump).
-func LeakedGoroutines() string {
+func LeakedGoroutines(baseline ...map[string]bool) string {
+	var base map[string]bool
+	if len(baseline) > 0 {
+		base = baseline[0]
+	}
 	last := ""
 	same := 0
 	deadline := time.Now().Add(InconclusiveCap)
@@ -252,6 +284,9 @@ func LeakedGoroutines() string {
 		gs := dumpGoroutines()
 		var rel []gor
 		for _, g := range gs {
+			if base[g.id] {
+				continue // was already there before this run (left behind by an earlier stuck case)
+			}
 			if isLibrary(g) && !strings.Contains(g.body, "harness.LeakedGoroutines") && !strings.Contains(g.body, "verif/checks.") && !strings.Contains(g.body, "harness.RunSync") && !strings.Contains(g.body, "harness.Run") {
 				rel = append(rel, g)
 			}
